@@ -339,7 +339,7 @@ class Gen:
             pool = [0, 1, 1000, (1 << 32) - 1, 65534, 65535, 65536] + [r.randrange(0, 1 << 32) for _ in range(max(1, n // 2))]
             ids = [r.choice(pool) for _ in range(n)]
             self.add("idtab %d %s" % (r.choice([0, 96]), " ".join(map(str, ids))), op="idtab", ids=ids)
-        for n in ([2047, 2048, 2049, 4096] if self.quick else [2048, 2049, 65534, 65535, 65536, 65537]):
+        for n in ([2047, 2048, 2049, 4096] if self.quick else [2048, 2049, 65535, 65536]):
             self.add("idrange %d" % n, op="idrange", n=n)
         # the 65535-id limit on a pre-loaded table (cheap): ids 5..9 are new, 1000.. are present
         for n0, ids in [(65533, [5, 1000, 6, 7, 8]), (65534, [5, 5, 1001, 6]), (65535, [1001, 66534, 9]), (65535, [9]), (65532, [5, 6, 7, 8]),
@@ -444,66 +444,71 @@ class Gen:
         r = self.r
         for it in range(count):
             big = it % 3 == 2
-            specs, paths, dirs, leaves = [], set(), [b""], []
+            specs, leaves, links = [], [], []
+            kind = {b"": "i"}                     # path -> 'd' explicit dir, 'i' implicitly created dir, 'x' anything else
             ids = [0, 1000, 65534, (1 << 32) - 1, r.randrange(1, 1 << 32), r.randrange(1, 1 << 32)]
 
+            def dirs():
+                return [p for p, k in kind.items() if k in "di"]
+
+            def can_add(path, t):
+                comps = path.split(b"/")
+                for i in range(1, len(comps)):
+                    if kind.get(b"/".join(comps[:i]), "i") not in "di":
+                        return False
+                return path not in kind or (kind[path] == "i" and t == "d")
+
             def add(path, t, extra, perm=None, xattr=None):
+                if not can_add(path, t):
+                    return False
+                comps = path.split(b"/")
+                for i in range(1, len(comps)):
+                    kind.setdefault(b"/".join(comps[:i]), "i")
+                kind[path] = "d" if t == "d" else "x"
                 specs.append((path, t, perm if perm is not None else r.choice([0o644, 0o755, 0, 0o7777]), r.choice(ids), r.choice(ids),
                               r.choice([0, 1, 1 << 31, (1 << 32) - 1, r.randrange(0, 1 << 32)]),
                               xattr if xattr is not None else r.choice([NONE32, NONE32, NONE32, 0, 7]), extra))
-                paths.add(path)
+                return True
 
             if r.random() < 0.4:
-                add(b"", "d", "-")                                            # explicit attributes for the root
+                kind[b""] = "d"
+                specs.append((b"", "d", r.choice([0o755, 0o700, 0o7777]), r.choice(ids), r.choice(ids), r.randrange(0, 1 << 32),
+                              r.choice([NONE32, 5]), "-"))               # explicit attributes for the root
             nnodes = r.choice([3, 8, 20]) if not big else r.choice([150, 320])
             for _ in range(nnodes):
-                parent = r.choice(dirs)
-                if r.random() < 0.15 and len(parent.split(b"/")) < 4:         # implicitly created parents
+                parent = r.choice(dirs())
+                if r.random() < 0.15 and parent.count(b"/") < 3:          # implicitly created parents
                     parent = (parent + b"/" if parent else b"") + self.tree_name()
                 nm = self.tree_name(short=(r.random() < 0.9))
                 path = (parent + b"/" if parent else b"") + nm
-                if path in paths or any(path.startswith(q + b"/") and q not in dirs for q in paths):
-                    continue
-                if parent and parent not in dirs:
-                    if parent in paths:
-                        continue
-                    dirs.append(parent)                                       # implicit: defaults
-                    q = parent
-                    while b"/" in q:
-                        q = q.rsplit(b"/", 1)[0]
-                        if q not in dirs and q not in paths:
-                            dirs.append(q)
                 t = r.choice("dddfffflllbcps")
                 if t == "d":
-                    add(path, "d", "-"); dirs.append(path)
+                    add(path, "d", "-")
                 elif t == "f":
-                    add(path, "f", self.file_spec()); leaves.append(path)
+                    if add(path, "f", self.file_spec()):
+                        leaves.append(path)
                 elif t == "l":
                     ln = r.choice([1, 3, 20, 255, 2000]) if not big else r.choice([1, 10, 100, 3000])
-                    add(path, "l", bytes(r.randrange(1, 256) for _ in range(ln)).hex()); leaves.append(path)
+                    if add(path, "l", bytes(r.randrange(1, 256) for _ in range(ln)).hex()):
+                        leaves.append(path)
                 elif t in "bc":
-                    add(path, t, str(r.choice([0, 1281, (1 << 32) - 1]))); leaves.append(path)
-                else:
-                    add(path, t, "-"); leaves.append(path)
+                    if add(path, t, str(r.choice([0, 1281, (1 << 32) - 1]))):
+                        leaves.append(path)
+                elif add(path, t, "-"):
+                    leaves.append(path)
             # hard links: to files, symlinks, devices, fifos, and to other hard links; in directories before and behind
-            links = []
             for _ in range(r.choice([0, 1, 3, 6])):
                 if not leaves:
                     break
                 tgt = r.choice(leaves + links)
-                parent = r.choice(dirs)
-                nm = self.tree_name()
-                path = (parent + b"/" if parent else b"") + nm
-                if path in paths or path in dirs:
-                    continue
-                add(path, "h", tgt.hex(), perm=0, xattr=NONE32)
-                links.append(path)
+                parent = r.choice(dirs())
+                path = (parent + b"/" if parent else b"") + self.tree_name()
+                if add(path, "h", tgt.hex(), perm=0, xattr=NONE32):
+                    links.append(path)
             if big:                                                            # one large directory: extended inode, index
-                base = r.choice(dirs)
+                base = r.choice(dirs())
                 for k in range(r.choice([255, 256, 300])):
-                    path = (base + b"/" if base else b"") + b"e%04d" % k
-                    if path not in paths and path not in dirs:
-                        add(path, "p", "-")
+                    add((base + b"/" if base else b"") + b"e%04d" % k, "p", "-")
             toks = ["%s|%s|%d|%d|%d|%d|%d|%s" % (hx(p), t, perm, u, g, mt, xa, ex) for (p, t, perm, u, g, mt, xa, ex) in specs]
             self.add("tree " + " ".join(toks), op="tree", specs=specs)
         # refused trees
@@ -517,7 +522,7 @@ class Gen:
 
 def generate(rng, quick):
     g = Gen(rng, quick)
-    s = 1 if quick else 6
+    s = 1 if quick else 5
     g.gen_inodes(4 * s)
     g.gen_conv(2 * s)
     g.gen_dirs(6 * s)
